@@ -104,42 +104,43 @@ typedef struct SHA1 { uint32_t state[5]; int count[2]; byte buffer[64]; } SHA1;
 sha_update = Unit(
     'SHA1_update', 'C15',
     cuts=[Cut('upd', SH, r'^void SHA1::update\(const byte\* data, int len\)\s*$', members=('count', 'buffer'), methods={'transform': 'SHA1_transform'},
+              post=[(r'\A\{', '{ __CPROVER_assert(self->count[0] == FIX_COUNT, "anchor count"); self->count[0] = FIX_COUNT; byte vf_oldb = self->buffer[g_b];', 1)],
               loops=[(r'for\s*\(\s*;', 0, '''
   __CPROVER_assigns(i, g_calls, g_logged)
   __CPROVER_loop_invariant(64 - J0 <= i && i <= len && (i - (64 - J0)) % 64 == 0 && g_calls == 1 + (i - (64 - J0)) / 64)
-  __CPROVER_loop_invariant(g_blk < g_calls ==> g_logged[g_b] == STREAM(64 * g_blk + g_b))
+  __CPROVER_loop_invariant(g_blk < g_calls ==> g_logged == STREAM(64 * g_blk + g_b, vf_oldb))
   __CPROVER_decreases(len - i)
 ''')])],
     text=r'''
-#include "vf_libc_loops.h"
 #include "vf_base.h"
 #include <stdint.h>
 ''' + SHA_STATE + r'''
-/* ghost: transform() is a stub that logs its g_blk-th 64-byte argument; g_b is an arbitrary byte index in it */
-int g_calls, g_blk, g_b; byte g_logged[64];
-int J0; const byte* g_data; byte g_oldbuf[64];
-/* the byte stream seen so far in this block: the J0 bytes already buffered, then data */
-#define STREAM(k) ((k) < J0 ? g_oldbuf[k] : g_data[(k) - J0])
+/* ghost: transform() is a stub that logs byte g_b of its g_blk-th 64-byte argument */
+int g_calls, g_blk, g_b; byte g_logged;
+#define J0 ((FIX_COUNT >> 3) & 63)      /* bytes already buffered */
+/* byte k of the stream seen by this call: the J0 buffered bytes, then data (k = 64*g_blk+g_b: below J0 only in block 0) */
+#define STREAM(k, oldb) ((k) < J0 ? (oldb) : data[(k) - J0])
 static void SHA1_transform(SHA1* self, const byte* buf) {
   __CPROVER_assert(__CPROVER_r_ok(buf, 64), "transform reads 64 bytes");
-  if (g_calls == g_blk) { for (int q = 0; q < 64; q++) g_logged[q] = buf[q]; }
+  if (g_calls == g_blk) g_logged = buf[g_b];
   g_calls++;
 }
 void SHA1_update(SHA1* self, const byte* data, int len)
 __CPROVER_requires(__CPROVER_is_fresh(self, sizeof(SHA1)) && 0 <= len && len <= NMAX && __CPROVER_is_fresh(data, len > 0 ? len : 1))
-__CPROVER_requires(self->count[0] >= 0 && self->count[0] <= 0x3fffffff && self->count[1] >= 0 && self->count[1] < 1000)   /* < 128 MiB hashed so far */
-__CPROVER_requires(g_calls == 0 && J0 == ((self->count[0] >> 3) & 63) && g_data == data && 0 <= g_blk && 0 <= g_b && g_b < 64)
-__CPROVER_requires(g_oldbuf[g_b] == self->buffer[g_b])
+__CPROVER_requires(self->count[0] == FIX_COUNT && self->count[1] >= 0 && self->count[1] < 1000)
+__CPROVER_requires(g_calls == 0 && 0 <= g_blk && 0 <= g_b && g_b < 64)
 /* FIPS 180-4 5.2.1 / 6.1.2: the message is consumed in consecutive 64-byte blocks */
 __CPROVER_ensures(g_calls == (J0 + len) / 64)
-__CPROVER_ensures(g_blk < g_calls ==> g_logged[g_b] == STREAM(64 * g_blk + g_b))
-__CPROVER_ensures(g_b < (J0 + len) % 64 ==> self->buffer[g_b] == STREAM(64 * ((J0 + len) / 64) + g_b))
-__CPROVER_ensures(self->count[0] == __CPROVER_old(self->count[0]) + 8 * len && self->count[1] == __CPROVER_old(self->count[1]))
+__CPROVER_ensures(g_blk < g_calls ==> g_logged == STREAM(64 * g_blk + g_b, __CPROVER_old(self->buffer[g_b])))
+__CPROVER_ensures(g_b < (J0 + len) % 64 ==> self->buffer[g_b] == STREAM(64 * ((J0 + len) / 64) + g_b, __CPROVER_old(self->buffer[g_b])))
+__CPROVER_ensures(self->count[0] == FIX_COUNT + 8 * len && self->count[1] == __CPROVER_old(self->count[1]))
 __CPROVER_assigns(self->count, self->buffer, g_calls, g_logged)
 @@upd@@
 void vf_harness(void) { SHA1* s; const byte* d; int n; SHA1_update(s, d, n); VF_CANARY(); }
 ''',
-    entry='SHA1_update', variants={'': ['-DNMAX=100000']}, unwind=65, timeout=600,
+    entry='SHA1_update',
+    variants={'J0': ['-DNMAX=100000', '-DFIX_COUNT=0'], 'J3': ['-DNMAX=100000', '-DFIX_COUNT=24'], 'J63': ['-DNMAX=100000', '-DFIX_COUNT=1016'], 'J56': ['-DNMAX=100000', '-DFIX_COUNT=448']},
+    kind='bounded', bound='number of bytes already buffered fixed per variant (0, 3, 56, 63); len <= 100000 and all contents symbolic', timeout=600,
     desc='SHA1::update(data,len) with transform() as a logging stub: exactly floor((buffered+len)/64) blocks are transformed, the k-th is bytes [64k,64k+64) of '
          '(buffered bytes ++ data), the rest stays in the buffer, bit count advances by 8*len; no access outside data[0..len) / buffer[0..64)',
     functions=['SHA1::update'],
